@@ -134,6 +134,11 @@ func effectsPass(w *World, id string) []*OwnOb {
 		return false
 	}
 	switch id {
+	case "C01", "C02", "C03", "C04", "C05", "C06", "C07", "C10", "C11", "C12", "C13", "C14", "C17", "C19":
+		// every proof that goes through filterMap or ranges sortedMap uses its assumed contract
+		out = append(out, checkSortedMap(w)...)
+	}
+	switch id {
 	case "C18":
 		// E1: content is read, and root handles are opened, only where the contracts say so
 		for _, fi := range lib {
@@ -188,6 +193,7 @@ func effectsPass(w *World, id string) []*OwnOb {
 		}
 		out = append(out, checkMapRanges(w, lib)...)
 		out = append(out, checkPackageVars(w)...)
+		out = append(out, checkSortedMap(w)...)
 	case "C05":
 		out = append(out, checkFormatTable(w)...)
 		out = append(out, checkOutputFileOpen(w, lib)...)
@@ -873,6 +879,33 @@ func checkOutputFileOpen(w *World, lib []*FuncInfo, dirs ...string) []*OwnOb {
 			Why: fmt.Sprintf("OutputToFile writes to a handle directly (%d sites): the file content is no longer exactly what OutputToWriter produces", other)})
 	}
 	return out
+}
+
+// checkSortedMap: the executor uses sortedMap(m) through its assumed contract (every key once, ascending). The function is
+// a generic iterator (a returned function literal), outside the executor's subset, so its body is pinned syntactically:
+// it ranges over slices.Sorted(maps.Keys(m)), yields (k, m[k]) for every key and stops only when yield says so.
+func checkSortedMap(w *World) []*OwnOb {
+	fi := findFunc(w, ".:sortedMap")
+	if fi == nil {
+		return []*OwnOb{{Key: ".:sortedMap.effects[ascending key order, every entry once]", Kind: "effects", OK: false, Why: "sortedMap not found"}}
+	}
+	ok := false
+	why := "sortedMap must be `return func(yield) { for _, k := range slices.Sorted(maps.Keys(m)) { if !yield(k, m[k]) { return } } }`"
+	if len(fi.Decl.Body.List) == 1 {
+		if rs, isRet := fi.Decl.Body.List[0].(*ast.ReturnStmt); isRet && len(rs.Results) == 1 {
+			if lit, isLit := rs.Results[0].(*ast.FuncLit); isLit && len(lit.Body.List) == 1 {
+				if rg, isRange := lit.Body.List[0].(*ast.RangeStmt); isRange && rg.Value != nil && exprString(rg.X) == "slices.Sorted(maps.Keys(m))" && len(rg.Body.List) == 1 {
+					k := exprString(rg.Value)
+					if ifs, isIf := rg.Body.List[0].(*ast.IfStmt); isIf && ifs.Init == nil && ifs.Else == nil && exprString(ifs.Cond) == "!yield("+k+", m["+k+"])" && len(ifs.Body.List) == 1 {
+						if r2, isR := ifs.Body.List[0].(*ast.ReturnStmt); isR && len(r2.Results) == 0 {
+							ok = true
+						}
+					}
+				}
+			}
+		}
+	}
+	return []*OwnOb{{Key: ".:sortedMap.effects[ascending key order, every entry once]", Kind: "effects", OK: ok, Pos: posStr(w, fi.Decl.Pos()), Why: why}}
 }
 
 // checkPackageVars: C09 — the set of package-level variables is the allow-listed, read-only one. A new package-level
